@@ -1,2 +1,120 @@
-import FpgoVerif.Model.C14
-/-! Property theorems for C14 (none yet). -/
+import FpgoVerif.Proofs.C14Inv
+import FpgoVerif.Gen.Skeletons
+import FpgoVerif.Gen.C15Bodies
+/-! Property theorems for C14 — coroutines pair every YieldFrom with the matching YieldRef, in order, per caller.
+    All theorems hold for any number of callers, any scripts, any opCh capacity, any generator `gen`, and every
+    interleaving (`Reach`).  Hypothesis of the property ("the target still has YieldRefs to serve"): the target
+    of this system never finishes (finishing = C15). -/
+namespace FpgoVerif.C14
+
+/-- conservation and per-caller order of requests: what caller i asked = what the target took from it (in order)
+    ++ what is still queued ++ what it has not sent yet.  Nothing is lost, duplicated or reordered. -/
+theorem C14_pair_requests {gen cap script sv s} (h : Reach gen cap script sv s) (i : Nat) :
+    xsOf i s.served ++ chOf i s.opCh ++ s.pending i = script i := (inv_reach h).reqs i
+
+/-- routing: the answers caller i has (received ++ waiting in its resultCh ++ being sent) are exactly the values
+    yielded for ITS OWN requests, in its own order — never another caller's. -/
+theorem C14_pair_answers {gen cap script sv s} (h : Reach gen cap script sv s) (i : Nat) :
+    s.got i ++ s.resCh i ++ inflY i s.inflight = ysOf i s.served := (inv_reach h).ans i
+
+/-- the k-th request taken returns its x to the YieldRef and is paired with the value the generator yields at
+    that point -/
+theorem C14_take_pairs {gen cap s s'} (h : step gen cap s .take = some s') :
+    ∃ c x rest, s.opCh = (c, x) :: rest ∧ s'.served = s.served ++ [(c, x, gen (seenOf s.served))] ∧
+      s'.inflight = some (c, x, gen (seenOf s.served)) := by
+  simp only [step] at h
+  split at h
+  · rename_i c x rest _ hop
+    simp only [Option.some.injEq] at h; subst h
+    exact ⟨c, x, rest, hop, rfl, rfl⟩
+  · simp at h
+
+/-- a caller that has nothing outstanding any more got exactly y's of its requests and the target saw exactly its
+    script: with one caller, its n YieldFrom calls return y1..yn and the target sees x1..xn -/
+theorem C14_caller_complete {gen cap script sv s} (h : Reach gen cap script sv s) (i : Nat)
+    (hp : s.pending i = []) (hq : chOf i s.opCh = []) (hr : s.resCh i = []) (hf : inflY i s.inflight = []) :
+    xsOf i s.served = script i ∧ s.got i = ysOf i s.served := by
+  have h1 := C14_pair_requests h i
+  have h2 := C14_pair_answers h i
+  rw [hp, hq] at h1
+  rw [hr, hf] at h2
+  exact ⟨by simpa using h1, by simpa using h2⟩
+
+/-- non-vacuity: one caller with script [11, 12], generator "fixed": the run completes with both answers -/
+example : (let s := runRR (shapeGen "fixed" false) 5 1 40 (init (mkScript [2]) none)
+           (s.got 0, xsOf 0 s.served, s.pending 0)) = ([3, 10], [1, 2], []) := by decide
+
+/-- StartWithVal hands its value to the first YieldRef: the first op the target ever takes is the callerless
+    op carrying that value -/
+theorem C14_startWithVal {gen cap script v s} (h : Reach gen cap script (some v) s) :
+    (s.served = [] ∧ s.opCh.head? = some (none, v)) ∨ s.served.head? = some (none, v, gen []) := by
+  induction h with
+  | init => left; simp [init]
+  | @step s0 s1 a _ hs ih =>
+    cases a with
+    | send i =>
+      simp only [step] at hs
+      split at hs
+      · split at hs
+        · simp only [Option.some.injEq] at hs; subst hs
+          rcases ih with ⟨h1, h2⟩ | h2
+          · left; refine ⟨h1, ?_⟩
+            show (s0.opCh ++ _).head? = _
+            cases hop : s0.opCh with
+            | nil => rw [hop] at h2; simp at h2
+            | cons a t => rw [hop] at h2; simpa using h2
+          · right; exact h2
+        · simp at hs
+      · simp at hs
+    | take =>
+      obtain ⟨c, x, rest, hop, hsv, _⟩ := C14_take_pairs hs
+      rcases ih with ⟨h1, h2⟩ | h2
+      · right
+        rw [hop] at h2; simp at h2
+        obtain ⟨rfl, rfl⟩ := h2
+        rw [hsv, h1]; simp [seenOf]
+      · right
+        rw [hsv]
+        cases hs0 : s0.served with
+        | nil => rw [hs0] at h2; simp at h2
+        | cons a t => rw [hs0] at h2; simpa using h2
+    | answer =>
+      simp only [step] at hs
+      split at hs
+      · simp only [Option.some.injEq] at hs; subst hs; exact ih
+      · simp only [Option.some.injEq] at hs; subst hs; exact ih
+      · simp at hs
+    | recv i =>
+      simp only [step] at hs
+      split at hs
+      · split at hs
+        · simp only [Option.some.injEq] at hs; subst hs; exact ih
+        · simp at hs
+      · simp at hs
+
+/-- DoNotation / YieldFromIO return the effect's / the IO's value: the waiter can read a result only after the
+    store and the `Done`, and then it is the stored value -/
+theorem C14_doNotation (v : Nat) : doNotation v = some v := rfl
+theorem C14_wait_reads_stored (st : WgSt) (r : Nat) (h : wgResult st = some r) : st = .signalled r := by
+  cases st <;> simp [wgResult] at h; subst h; rfl
+
+/-- IsStarted / IsDone: false,false before Start; true,false while the effect runs; true,true after it returned -/
+theorem C14_flags : flagsTrace.map (fun f => (f.started, f.done)) = [(false, false), (true, false), (true, true)] := by
+  decide
+
+/-! ### protocol tie: the exact current bodies of the coroutine functions (regenerated on every run) -/
+
+theorem C14_body_YieldRef : Gen.c15BodyOf "CorDef.YieldRef" = some "{ var result T if self.IsDone() { return result } var op *CorOp[T] var more bool op, more = <-self.opCh if more && op != nil && op.cor != nil { cor := op.cor cor.doCloseSafe(func() { cor.resultCh <- out }) } result = op.val return result }" := by decide +kernel
+theorem C14_body_YieldFrom : Gen.c15BodyOf "CorDef.YieldFrom" = some "{ var result T if self.IsDone() { return result } if !target.receive(self, in) { return result } result, _ = <-self.resultCh return result }" := by decide +kernel
+theorem C14_body_receive : Gen.c15BodyOf "CorDef.receive" = some "{ delivered := false self.doCloseSafe(func() { if self.opCh != nil { select { case self.opCh <- &CorOp[T]{cor: cor, val: in}: delivered = true case <-self.doneCh: } } }) return delivered }" := by decide +kernel
+theorem C14_body_StartWithVal : Gen.c15BodyOf "CorDef.StartWithVal" = some "{ if self.IsDone() || self.isStarted.Get() { return } self.receive(nil, in) self.Start() }" := by decide +kernel
+theorem C14_body_Start : Gen.c15BodyOf "CorDef.Start" = some "{ if self.IsDone() || self.isStarted.Get() { return } self.isStarted.Set(true) go func() { self.effect() self.close() }() }" := by decide +kernel
+theorem C14_body_DoNotation : Gen.c15BodyOf "CorDef.DoNotation" = some "{ var result T var wg sync.WaitGroup wg.Add(1) var cor *CorDef[T] cor = CorNewGenerics[T](func() { result = effect(cor) wg.Done() }) cor.Start() wg.Wait() return result }" := by decide +kernel
+theorem C14_body_YieldFromIO : Gen.c15BodyOf "CorDef.YieldFromIO" = some "{ var result T var wg sync.WaitGroup wg.Add(1) target.SubscribeOn(nil).Subscribe(Subscription[T]{ OnNext: func(in T) { result = in wg.Done() }, }) wg.Wait() return result }" := by decide +kernel
+theorem C14_body_New : Gen.c15BodyOf "CorNewGenerics" = some "{ cor := &CorDef[T]{ effect: effect, opCh: make(chan *CorOp[T], 5), resultCh: make(chan T, 5), doneCh: make(chan struct{}), isStarted: AtomBool{flag: 0}, } return cor }" := by decide +kernel
+theorem C14_body_IsDone : Gen.c15BodyOf "CorDef.IsDone" = some "{ return self.isClosed.Get() }" := by decide +kernel
+theorem C14_body_IsStarted : Gen.c15BodyOf "CorDef.IsStarted" = some "{ return self.isStarted.Get() }" := by decide +kernel
+theorem C14_body_doCloseSafe : Gen.c15BodyOf "CorDef.doCloseSafe" = some "{ self.closedM.Lock() defer self.closedM.Unlock() if self.IsDone() { return } fn() }" := by decide +kernel
+theorem C14_body_close : Gen.c15BodyOf "CorDef.close" = some "{ self.isClosed.Set(true) if self.doneCh != nil { close(self.doneCh) } self.closedM.Lock() if self.resultCh != nil { close(self.resultCh) } if self.opCh != nil { close(self.opCh) } self.closedM.Unlock() if self.opCh != nil { for op := range self.opCh { if op != nil && op.cor != nil { cor := op.cor cor.doCloseSafe(func() { var zero T cor.resultCh <- zero }) } } } }" := by decide +kernel
+
+end FpgoVerif.C14
